@@ -248,9 +248,19 @@ impl<'a, 'bases, R: Reader> EhHdrTableIter<'a, 'bases, R> {
         };
 
         self.remain -= 1;
-        let from = parse_encoded_pointer(self.hdr.table_enc, &parameters, &mut self.table)?;
-        let to = parse_encoded_pointer(self.hdr.table_enc, &parameters, &mut self.table)?;
-        Ok(Some((from, to)))
+        let mut parse = || -> Result<(Pointer, Pointer)> {
+            let from = parse_encoded_pointer(self.hdr.table_enc, &parameters, &mut self.table)?;
+            let to = parse_encoded_pointer(self.hdr.table_enc, &parameters, &mut self.table)?;
+            Ok((from, to))
+        };
+        match parse() {
+            Ok(entry) => Ok(Some(entry)),
+            Err(e) => {
+                // The count may exceed what the table holds; do not keep failing.
+                self.remain = 0;
+                Err(e)
+            }
+        }
     }
     /// Yield the nth entry in the `EhHdrTableIter`
     pub fn nth(&mut self, n: usize) -> Result<Option<(Pointer, Pointer)>> {
